@@ -107,7 +107,17 @@ def rules(ctx, tier):
                 "blob unlink at %s happens without the protocol lock %s (held: %s)" % (
                     site_where(site), sorted(P), sorted(cs)), site_where(site),
                 witness={"must_held": sorted(cs)})
-    r.need(14, "11 intents accesses + 4 unlink sites - tolerance")
+    # role minimum rather than today's count (11 accesses + 4 unlinks): helpers shared by two call sites lower the
+    # number of access sites without removing a role
+    seen_roles = set()
+    for cu in ctx.world.container_uses:
+        seen_roles |= sem(("CONT", cu.field, cu.method, cu.mutable)) & {"INTENT_DEL", "INTENT_READ", "INTENT_ADD"}
+    r.check(seen_roles == {"INTENT_DEL", "INTENT_READ", "INTENT_ADD"}, "intent-roles", None,
+            "intents are added, removed and read (%s)" % sorted(seen_roles),
+            "the intents container is not added to, removed from and read (found only %s)" % sorted(seen_roles))
+    r.check(len(all_unlinks) >= 2, "unlink-sites", None, "%d blob unlink site(s)" % len(all_unlinks),
+            "expected the callback unlink and the orphan clean-up unlinks, found %d unlink site(s)" % len(all_unlinks))
+    r.need(9, "protocol lock + intents accesses (add, remove, read) + unlink sites")
     out.append(r.finish())
 
     # ------------------------------------------------------------------ R2
@@ -141,8 +151,8 @@ def rules(ctx, tier):
         if sets is None:
             continue
         # the frame that owns the intent guard: the innermost one whose body makes the registering call
-        frame = ctx.deepest_frame(chain, lambda b: any(
-            "INTENT_ADD" in sem_set(ctx.may.site_events(s)) for s in b.calls()))
+        ow = intent_owner(ctx, chain)
+        frame = ow[2] if ow is not None else chain[0]
         if frame.key() in done:
             continue
         done.add(frame.key())
@@ -151,7 +161,7 @@ def rules(ctx, tier):
         r.check("INTENT_ADD" in names, "INTENT_ADD@BLOB_PUBLISH", frame.body,
                 "an intent is registered before the publish at %s" % site_where(frame),
                 "the blob is published at %s before any intent is registered" % site_where(frame), site_where(frame))
-        guard_alive(ctx, r, frame)
+        guard_alive(ctx, r, chain)
     r.need(3, "publish site: intent first, guard live, guard consumed by the apply call")
     out.append(r.finish())
 
@@ -486,77 +496,88 @@ def _iter_over_intents(ctx, b, sl, s2, fcont):
     return False
 
 
-def guard_alive(ctx, r, pub_site):
-    """In the body of the publish call site: the value returned by the registering call (a type whose
-    Drop touches the intents) is neither dropped nor moved before the publish, and is then moved into
-    the call that applies."""
-    b = pub_site.body
+def intent_owner(ctx, chain):
+    """(frame of the chain, registering call in its body): the outermost frame of a publish chain whose body calls
+    something that registers an intent and RETURNS the guard (a value whose Drop touches the intents)."""
     prog = ctx.prog
     gdrops = set(x.path for x in intent_guard_drops(ctx))
-    guards = []
-    for l, t in enumerate(b.locals):
-        d, _ = prog.adt_of(t)
-        ty = prog.types[t]
-        if ty.get("k") == "adt" and d in prog.adts and prog.adts[d].get("drop_fn") in gdrops:
-            defs = b.assignments().get(l, [])
-            if any(j == "term" for (_, j, _) in defs):
-                guards.append(l)
-    # keep the one defined by a call that registers
-    reg = []
-    for l in guards:
-        for (dbb, j, rv) in b.assignments().get(l, []):
-            if j == "term" and "INTENT_ADD" in sem_set(ctx.may.site_events(Site(b, dbb, rv))):
-                reg.append((l, dbb))
-    # the guard may first live in a Result temp: follow moves forward
-    if not reg:
-        for s in b.calls():
-            if "INTENT_ADD" in sem_set(ctx.may.site_events(s)):
-                reg.append((None, s.bb))
-    r.check(bool(reg), "guard-local", b, "intent guard produced in %s" % b.path,
-            "cannot find the value that keeps the intent alive in %s" % b.path)
-    if not reg:
+
+    def holds_guard(ty):
+        return bool(prog.find_in_type(ty, lambda x: x.get("k") == "adt" and x.get("def") in prog.adts and
+                                      prog.adts[x["def"]].get("drop_fn") in gdrops))
+    for fs in chain:
+        b0 = fs.body
+        for c in b0.calls():
+            if "INTENT_ADD" in sem_set(ctx.may.site_events(c)) and not c.term["dest"]["p"] and \
+                    holds_guard(b0.locals[c.term["dest"]["l"]]):
+                return (b0, c, fs)
+    return None
+
+
+def guard_alive(ctx, r, chain):
+    """On the flat view of the function that obtains the intent guard (the value returned by the registering call, a type
+    whose Drop touches the intents): between registration and the publish the guard is neither dropped nor handed to code
+    outside the view, and after the publish it is moved into the call that logs and applies.  The publish and the apply
+    may sit in helpers that receive the guard as a parameter - they are part of the view."""
+    prog = ctx.prog
+    gdrops = set(x.path for x in intent_guard_drops(ctx))
+
+    def holds_guard(ty):
+        return bool(prog.find_in_type(ty, lambda x: x.get("k") == "adt" and x.get("def") in prog.adts and
+                                      prog.adts[x["def"]].get("drop_fn") in gdrops))
+    owner = intent_owner(ctx, chain)
+    kb = chain[0].body
+    r.check(owner is not None, "guard-local", kb, "intent guard produced in %s" % (owner[0].path if owner else "?"),
+            "cannot find the value that keeps the intent alive on the way to the publish at %s" % site_where(chain[0]))
+    if owner is None:
         return
-    reg_bb = reg[0][1]
-    # all guard-typed locals (the value moves through a few temporaries)
-    gl = set(guards)
-    for l, t in enumerate(b.locals):
-        ty = prog.types[t]
-        if ty.get("k") == "adt" and any(prog.types[i].get("def") in prog.adts and
-                                        prog.adts[prog.types[i]["def"]].get("drop_fn") in gdrops
-                                        for i in prog.find_in_type(t, lambda x: x.get("k") == "adt")):
-            gl.add(l)
-    region = cfgutil.reach(b, reg_bb) & _can_reach(b, pub_site.bb)
-    early = []
-    for x in region:
-        t = b.blocks[x]["term"]
-        if x == pub_site.bb:
-            continue
-        if t["k"] == "drop" and t["place"]["l"] in gl and x != reg_bb:
-            # a drop on the Err edge of the registering call is not on the way to the publish
-            early.append(x)
-        if t["k"] == "call" and x != reg_bb:
-            for a in t["args"]:
-                pl = a.get("move")
-                if pl is not None and not pl["p"] and pl["l"] in guards:
+    b0, reg0, _fs = owner
+    reg_tgt = prog.local_target(reg0)
+    V = ctx.flat(b0, stop=(reg_tgt.path,) if reg_tgt is not None else ())
+    regs = ctx.flat_sites_of(V, reg0)
+    chain_keys = set(fs.key() for fs in chain)
+    pubs = [s for s in V.sites(("call",)) if s.key() in chain_keys and not V.blocks[s.bb].get("cleanup")]
+    if not regs or not pubs:
+        r.bad("guard-live-at-publish", b0, "cannot see registration and publish together in the view of %s" % b0.path)
+        return
+    gl = set(l for l, t in enumerate(V.locals) if holds_guard(t))
+    for pub in pubs:
+        for reg in regs:
+            region = cfgutil.reach(V, reg.bb) & _can_reach(V, pub.bb)
+            early = []
+            for x in region:
+                t = V.blocks[x]["term"]
+                if x in (pub.bb, reg.bb):
+                    continue
+                if t["k"] == "drop" and t["place"]["l"] in gl:
                     early.append(x)
-    r.check(b.dominates(reg_bb, pub_site.bb) and not early, "guard-live-at-publish", b,
-            "the intent guard is alive from registration to the publish at %s" % site_where(pub_site),
-            "the intent guard is dropped or given away before the publish at %s (blocks %s)" % (
-                site_where(pub_site), sorted(early)), site_where(pub_site))
-    # after the publish it is moved into a call that applies
-    consumed = False
-    for s in b.calls():
-        if not b.dominates(pub_site.bb, s.bb):
-            continue
-        for a in s.term["args"]:
-            pl = a.get("move")
-            if pl is not None and not pl["p"] and pl["l"] in gl:
-                evs = sem_set(ctx.may.site_events(s))
-                if "INDEX_MUTATE" in evs:
-                    consumed = True
-    r.check(consumed, "guard-consumed-by-apply", b,
-            "after the publish the guard is handed to the call that logs and applies",
-            "after the publish the intent guard is not handed to the applying call (it may die before apply)")
+                if t["k"] == "call":
+                    for a in t["args"]:
+                        pl = a.get("move")
+                        if pl is not None and not pl["p"] and pl["l"] in gl and holds_guard(V.locals[pl["l"]]) and \
+                                not (term_path(t) or "").endswith(("Try::branch", "map_err", "from_residual")):
+                            early.append(x)
+            r.check(V.dominates(reg.bb, pub.bb) and not early, "guard-live-at-publish", b0,
+                    "the intent guard is alive from registration to the publish at %s" % site_where(pub),
+                    "the intent guard is dropped or given away before the publish at %s (%s)" % (
+                        site_where(pub), ", ".join(sorted("%s:%d" % (V.blocks[x]["span"].get("file", ""), V.blocks[x]["span"]["line"])
+                                                          for x in early))), site_where(pub))
+        consumed = False
+        for s2 in V.calls():
+            if s2.bb == pub.bb or s2.bb not in cfgutil.reach(V, pub.bb):
+                continue        # (publish-before-apply on every path is C03-R1; here: the guard survives the way there)
+            if "INDEX_MUTATE" not in sem_set(ctx.may.site_events(V.orig_site(s2))):
+                continue
+            # the guard is handed to the applying call, or (the call being part of the view) simply still alive there
+            moved = any(a.get("move") is not None and not a["move"]["p"] and a["move"]["l"] in gl for a in s2.term["args"])
+            region2 = (cfgutil.reach(V, pub.bb) & _can_reach(V, s2.bb)) - {pub.bb, s2.bb}
+            dropped = [x for x in region2 if V.blocks[x]["term"]["k"] == "drop" and V.blocks[x]["term"]["place"]["l"] in gl
+                       and not V.blocks[x]["term"]["place"]["p"]]
+            if moved or not dropped:
+                consumed = True
+        r.check(consumed, "guard-consumed-by-apply", b0,
+                "after the publish the guard is handed to the call that logs and applies",
+                "after the publish the intent guard is not handed to the applying call (it may die before apply)")
 
 
 def container_discipline(ctx, r, fcont, P):
